@@ -32,6 +32,10 @@ BODIES = {
     "early-pragma": (b'<meta http-equiv="Content-Type" content="text/html; charset=windows-1251"><p>' + TEXT, "windows-1251", "windows-1251"),
     "late-charset": (FILL + b"<meta charset=windows-1251><p>" + TEXT, None, "windows-1251"),
     "late-pragma": (FILL + b'<meta content="text/html; charset=windows-1251" http-equiv=content-type><p>' + TEXT, None, "windows-1251"),
+    "late-pragma-caps": (FILL + b'<meta http-equiv="Content-Type" content="text/html; charset=windows-1251"><p>' + TEXT, None, "windows-1251"),
+    "late-pragma-upper": (FILL + b'<META CONTENT="text/html;CHARSET=WINDOWS-1251" HTTP-EQUIV=CONTENT-TYPE><p>' + TEXT, None, "windows-1251"),
+    "late-charset-upper": (FILL + b"<META CHARSET='WINDOWS-1251'><p>" + TEXT, None, "windows-1251"),
+    "late-in-body": (FILL + b"<p><meta charset=windows-1251>" + TEXT, None, "windows-1251"),
     "comment-only": (b"<!-- <meta charset=windows-1251> --><p>" + TEXT, None, None),
     "early-utf16": (b"<meta charset=utf-16><p>" + TEXT, "utf-8", "utf-16"),
     "late-utf16": (FILL + b"<meta charset=utf-16be><p>" + TEXT, None, "utf-16be"),
